@@ -73,6 +73,18 @@ impl<T: Clone + TTOverwriteable> TranspositionTable<T> {
         key.0 as usize % self.data.len()
     }
 
+    /// The slot a key is looked up in (verification hook: lets recorded table operations carry the real index).
+    #[cfg(jgilchrist_tcheran_verif)]
+    pub fn verif_index(&self, key: &ZobristHash) -> usize {
+        self.get_entry_idx(key)
+    }
+
+    /// Number of slots (verification hook).
+    #[cfg(jgilchrist_tcheran_verif)]
+    pub fn verif_slots(&self) -> usize {
+        self.data.len()
+    }
+
     #[expect(
         clippy::cast_precision_loss,
         clippy::cast_possible_truncation,
